@@ -93,8 +93,14 @@ def execute_threads(case):
         # a pack that cannot complete may fail (statement); the one known cause under concurrency: an undo committed
         # while the pack runs points back to a revision the pack has already decided to drop
         from ZODB.FileStorage.fspack import PackError
+        import traceback
         for t in s.threads:
-            if t.name.startswith('packer') and isinstance(t.exc, PackError) and 'undo-ok' in ev:
+            if not (t.name.startswith('packer') and t.exc is not None and 'undo-ok' in ev):
+                continue
+            # (the same cause shows as the transaction-length assertion of copyOne when the copier writes the
+            # data inline instead of the back-pointer)
+            inner = traceback.extract_tb(t.exc.__traceback__)[-1]
+            if isinstance(t.exc, PackError) or (isinstance(t.exc, AssertionError) and inner.name == 'copyOne'):
                 out.label('threads-pack-failed-because-of-concurrent-undo')
                 t.exc = None
         if not threadprog.thread_problems(s, out, PROPERTY, allowed=(ConflictError,)):
